@@ -48,6 +48,11 @@ Wraps(t) ==
   \cup (IF t.k \in {"st", "un"}
         THEN LET m == MaxOf(BLS(t)) IN { Del(t, m), Del(t, m + 8), Del(t, m + 24) }
         ELSE {})
+  \* arrays of composites as fields behind a field that ends off a byte boundary (the array inherits alignment 8)
+  \cup (IF IsComposite(t)
+        THEN { St(<<s, Fix(t, 2)>>) : s \in {Bool, U(12, "s")} } \cup { St(<<s, Var(t, 2), Bool>>) : s \in {Bool, U(12, "s")} }
+             \cup { Un(<<Bool, Var(t, 2)>>) }
+        ELSE {})
 
 LayoutOf(t) ==
   [bls |-> BLS(t), align |-> Align(t),
